@@ -232,7 +232,12 @@ class Circuit:
         spec = circuit.__circuit_spec
         # Check circuit size is valid
         n_heralds = len(circuit.heralds["input"])
-        if mode + circuit.n_modes - n_heralds > self.n_modes:
+        available = [
+            m
+            for m in range(mode, self.n_modes)
+            if m not in self.__internal_modes
+        ]
+        if circuit.n_modes - n_heralds > len(available):
             raise ModeRangeError("Circuit to add is outside of mode range")
 
         # Include any existing internal modes into the circuit to be added
